@@ -92,8 +92,32 @@ static void body_ring(void) {
     vx_obs_u64(vx_hash(g_dst, out.pos)); vx_nontrivial(); vx_stat_add("transitions", 5);
 }
 
+/* --api 3: stable-buffer modes.  With ZSTD_c_stableInBuffer the caller shows the same, growing buffer on every call; every history of <= 3 calls
+ * (continue / flush, the buffer grown by 50 .. 140 000 bytes each time) followed by end; with and without ZSTD_c_stableOutBuffer.  After every completed
+ * flush the output so far decodes to exactly what was consumed; the finished frame decodes to the whole input. */
+static void body_stable(void) {
+    static const size_t GROW[] = {50, 300, 5000, 70000, 140000}; int ncalls = vx_choose(g_depth + 1), stableOut = vx_choose(2), tex = vx_choose(2), lvl = vx_choose(2) ? 1 : 5, lastGrow = vx_choose(2);
+    int g[4], dir[4]; char hs[160] = ""; size_t ho = 0; for (int i = 0; i < ncalls; i++) { g[i] = vx_choose(5); dir[i] = vx_choose(2); ho += snprintf(hs + ho, sizeof hs - ho, "%s+%zu ", dir[i] ? "flush" : "continue", GROW[g[i]]); }
+    vx_label("stableIn stableOut=%d texture%d level%d [%s] end+%d", stableOut, tex, lvl, hs, lastGrow ? 50 : 0);
+    size_t total = 0; for (int i = 0; i < ncalls; i++) total += GROW[g[i]]; total += lastGrow ? 50 : 0;
+    if (tex) fill_noise(g_src, total, 3); else fill_text(g_src, total, 12);
+    ZSTD_CCtx* c = ZSTD_createCCtx(); ZSTD_CCtx_setParameter(c, ZSTD_c_compressionLevel, lvl); ZSTD_CCtx_setParameter(c, ZSTD_c_stableInBuffer, 1); if (stableOut) ZSTD_CCtx_setParameter(c, ZSTD_c_stableOutBuffer, 1); ZSTD_CCtx_setParameter(c, ZSTD_c_checksumFlag, 1);
+    ZSTD_inBuffer in = { g_src, 0, 0 }; ZSTD_outBuffer out = { g_dst, 1u << 20, 0 };
+    for (int i = 0; i <= ncalls && !vx_failed; i++) {
+        int last = i == ncalls; in.size += last ? (lastGrow ? 50 : 0) : GROW[g[i]]; ZSTD_EndDirective d = last ? ZSTD_e_end : dir[i] ? ZSTD_e_flush : ZSTD_e_continue; size_t r; int guard = 0;
+        do { r = ZSTD_compressStream2(c, &out, &in, d); if (ZSTD_isError(r)) { vx_fail("compressStream2 in stable-input mode: %s", ZSTD_getErrorName(r)); break; } } while (d != ZSTD_e_continue && r != 0 && ++guard < 1000);
+        if (vx_failed) break;
+        if (in.pos > in.size) { vx_fail("input position beyond the buffer"); break; }
+        if (d != ZSTD_e_continue && in.pos != in.size) { vx_fail("%s completed with %zu of %zu bytes consumed", last ? "end" : "flush", in.pos, in.size); break; }
+        if (d != ZSTD_e_continue && check_decodes(g_dst, out.pos, g_src, in.pos, last, last ? "after end" : "after a completed flush")) break;
+    }
+    ZSTD_freeCCtx(c);
+    vx_obs_u64(vx_hash(g_dst, out.pos)); vx_nontrivial(); vx_stat_add("transitions", ncalls + 1);
+}
+
 static void body(void) {
     if (g_api == 2) { body_ring(); return; }
+    if (g_api == 3) { body_stable(); return; }
     int ncfg = (int)vx_opt_int("--ncfg", NCFG); if (ncfg > NCFG) ncfg = NCFG;
     int ci = vx_choose(ncfg); const cfg_t* cf = &CFG[ci];
     int kind = vx_choose(3);
